@@ -237,7 +237,7 @@ def run_ranges(jobs):
 
 def phases_of(tier, full):
     if tier == "thorough":
-        return [(full, 1), (full, 2), (full, 3), (CORE, 4), (MINI, 5)]
+        return [(full, 1), (full, 2), (CORE, 3), (CORE, 4), (MINI, 5)]
     return [(full, 1), (full, 2), (QUICK3, 3)]
 
 
@@ -286,6 +286,7 @@ def run(chk):
     full = [k for k in kinds if k not in excluded]
     if excluded:
         chk.cov["caps_hit"].append(f"entry kinds whose singleton history panics are reported and left out of longer histories: {excluded}")
+        chk.cov["exhaustive"] = False
 
     timing = chk.cov.setdefault("timing_s (wall, cpu of workers)", {})
 
@@ -421,8 +422,12 @@ def run(chk):
                        "trace comparisons (successful entries and probe vs the successful-only history) + designed outcomes of the singletons; "
                        "distinct_outcomes = distinct (entry kind, step completions, printed lines) incl. the probe"
                        % ([(len([k for k in a if k in full]), l) for a, l in phases], cfg))
-    for h in (["ev_throw_callee", "ev_ret"], ["call_class", "gen_next", "jobs_limit"], ["ev_decl_a", "ev_decl_b", "mod_ok"]):
-        chk.sample({"history": h})
+    shist = [["ev_throw_callee", "ev_ret"], ["call_class", "gen_next", "jobs_limit"], ["ev_define_nc", "ev_gdi_hist", "mod_ok"], ["ev_ret", "gen_throw_caught", "call_ret"]]
+    for h, r in zip(shist, core.run_jobs([{"i": i, "kind": "c07hist", "hist": h, "cfg": cfg} for i, h in enumerate(shist)], binary=VC07, env_extra=ENV)):
+        if "entries" in r:
+            chk.sample({"history": h, "entries": [[e["kind"], norm(e["completion"])[:60], " ".join(s["delta"] for s in e["steps"] if s["delta"])] for e in r["entries"]],
+                        "probe": [norm(r["probe"]["completion"]), r["probe"]["lines"][-2:]], "reference_history": r["ref_hist"],
+                        "probe_on_reference": norm(r["ref_probe"]["completion"]), "differential": r["diff"] and r["diff"]["asig"]})
     chk.assumptions += [
         "failed entry kinds are built to have no JS-visible side effect other than printing, so dropping them is the reference",
         "entries run under stack limit %d; only the probe runs under the calibrated tight stack limit" % ENTRY_STACK,
